@@ -97,8 +97,9 @@ def campaign(V, exe, group, workers, work, tier, seed, budget, prop):
     for f in reg: shutil.copy(f, os.path.join(corpus, "regression-" + os.path.basename(f)))
     nhand = 0
     if group == "pgp":
-        hand = sorted(glob.glob(os.path.join(V.BUILD, "handoff", prop, "*.bin"))) + sorted(glob.glob(os.path.join(V.VERIF, "corpus", prop, "handoff", "*.bin")))
-        ids = [targets.index(x) for x in ("pgp_signature", "pgp_pubkeyblock", "pgp_packets", "pgp_message") if x in targets]
+        # committed valid artefacts (made by the library in the C20 harness, C20_EXPORT_DIR) first, then inputs on which a C20 fault child died
+        hand = sorted(glob.glob(os.path.join(V.VERIF, "corpus", prop, "handoff", "*.bin"))) + sorted(glob.glob(os.path.join(V.BUILD, "handoff", prop, "*.bin")))
+        ids = [targets.index(x) for x in ("pgp_signature", "pgp_signatures", "pgp_pubkeyblock", "pgp_keyring", "pgp_packets", "pgp_message") if x in targets]
         limit = 250 if tier == "quick" else 3000
         for f in hand[:limit]:
             data = open(f, "rb").read(); nhand += 1
